@@ -668,8 +668,8 @@ fn prelude_program(rng: &mut Rng) -> (String, String) {
 /// The program stream of one (seed, tier): a pure function of its arguments.
 pub fn gen_stream(seed: u64, thorough: bool) -> Vec<Prog> {
     let mut rng = Rng::new(seed, 1600);
-    let n_plain = if thorough { 2500 } else { 320 };
-    let n_prelude = if thorough { 300 } else { 36 };
+    let n_plain = if thorough { 24000 } else { 3000 };
+    let n_prelude = if thorough { 2400 } else { 300 };
     let mut progs = vec![];
     for i in 0..n_plain {
         let (mut tops, mut result, feats) = plain_program(&mut rng, i);
